@@ -895,6 +895,13 @@ def correspond(ctx):
     rng = ctx.rng
     limit = LIMIT_Q
     t_start = time.time()
+    stages = ctx.cov.setdefault('stage_cpu_s', {})
+    _last = [time.process_time()]
+
+    def stage(name):
+        now = time.process_time()
+        stages[name] = round(stages.get(name, 0.0) + now - _last[0], 1)
+        _last[0] = now
     budget = ctx.n(85, 660)           # seconds for the lang stream
     # ---- 0. corpus: replay files of past findings / counter-witnesses (run first)
     import glob
@@ -905,6 +912,7 @@ def correspond(ctx):
         if r.get('kind') == 'doc' and 'text' in r:
             run_doc(ctx, st, r['text'], 'corpus:' + os.path.basename(f), limit)
             ctx.count('lang', 'origin:corpus')
+    stage('corpus')
     # ---- 1. bundled documents (always all of them)
     bundled = seeds(ctx, st)
     pool = []                          # (origin, dict) accepted seed dicts for mutation
@@ -916,17 +924,20 @@ def correspond(ctx):
         ctx.count('lang', 'origin:bundled')
         if acc and d is not None and len(text) < 20000:
             pool.append((origin, d))
+    stage('bundled')
     # ---- 2. hand-written corner texts (always all of them)
     for name, text in G.TEXT_DOCS:
         run_doc(ctx, st, text, 'corner:' + name, limit)
         ctx.count('lang', 'origin:corner')
     run_targeted(ctx, st, limit)
     # ---- 2b. scaling probes ("never hangs", decided on CPU-time growth, not on a wall-clock limit)
+    stage('corner+targeted')
     S.pause()                  # the probes measure CPU time of the unmodified validation
     try:
         run_probes(ctx, st)
     finally:
         S.resume()
+    stage('probes')
     # ---- 3. generated valid definitions in all syntactic forms
     n_gen = ctx.n(120, 1500)
     gen_pool = []
@@ -946,6 +957,7 @@ def correspond(ctx):
         if i < 2:
             ctx.sample({'stream': 'lang', 'origin': 'gen:' + g['kind'], 'text': text[:400], 'verdicts': verdicts})
     pool += gen_pool
+    stage('generated')
     # ---- 4. mutants
     n_mut = ctx.n(1000, 50000)
     done = 0
@@ -977,15 +989,24 @@ def correspond(ctx):
         if done in (5, 50):
             ctx.sample({'stream': 'lang', 'origin': org, 'text': text[:300], 'verdicts': verdicts})
     ctx.count('lang', 'mutants', done)
+    stage('mutants')
     # ---- 5. the seam check: memo off on a sample
     seam(ctx, st, pool, rng)
+    stage('seam')
     # ---- 6. model correspondence
     from harness import lang_model as M
     M.correspond_model(ctx, st, pool)
+    stage('model-streams')
     # ---- 6b. schema level: Lean interpreter over the generated schemas vs the real validate_schema
     S.run(ctx, st)
+    stage('schema-streams')
     # ---- 7. /validate controllers
     api_validate(ctx, st, pool, rng, limit)
+    stage('api')
+    import resource
+    ru_s, ru_c = resource.getrusage(resource.RUSAGE_SELF), resource.getrusage(resource.RUSAGE_CHILDREN)
+    ctx.cov['cpu_s'] = {'self': round(ru_s.ru_utime + ru_s.ru_stime, 1), 'children': round(ru_c.ru_utime + ru_c.ru_stime, 1),
+                        'wall_since_start_of_check': round(time.time() - ctx.t0, 1)}
     # margin of the watchdog: slowest call that did finish, as a fraction of its time limit
     ctx.cov['slowest_finished_call_fraction_of_cpu_limit'] = round(st.get('max_fraction_of_limit', 0.0), 4)
     ctx.cov['cpu_limit_s'] = round(st['cpu_limit'], 2)
